@@ -186,6 +186,10 @@ def eval_value(e: ast.AST, env: Dict[str, Any]) -> Any:
             return not v
         if isinstance(e.op, ast.USub) and isinstance(v, int):
             return -v
+        if isinstance(e.op, ast.Invert) and isinstance(v, int) and not isinstance(v, bool):
+            return ~v
+        if isinstance(e.op, ast.UAdd) and isinstance(v, int):
+            return +v
         raise CannotEvaluate('unary')
     if isinstance(e, ast.BoolOp):
         r = None
